@@ -1,4 +1,5 @@
 mod backoff;
+mod topic;
 mod util;
 
 fn main() {
@@ -10,6 +11,7 @@ fn main() {
     }
     match args[0].as_str() {
         "backoff" => backoff::main(&args[1..]),
+        "topic" => topic::main(&args[1..]),
         other => {
             eprintln!("unknown engine {other}");
             std::process::exit(2);
